@@ -11,7 +11,7 @@ Lemma limit_respected cfg tid w s s' :
   exists th, nth_error (st s) tid = Some th /\ t_pc th = WLock.
 Proof.
   intros H Hb. step_inv H;
-    cbn [sp busy limit set_owner set_shutdown set_busy set_limit set_cap_limit enqueue pop] in *; try lia.
+    cbn [sp busy limit set_owner set_shutdown set_busy set_limit set_cap_limit set_cap enqueue pop] in *; try lia.
   apply orb_false_iff in E0. destruct E0 as [_ El]. apply Nat.leb_gt in El.
   repeat split; try lia. eauto.
 Qed.
